@@ -39,7 +39,7 @@ Unit(
     "model.resolve_one_step.body",
     target="textx/model.py::ReferenceResolver.resolve_one_step",
     region="body:for:current_crossrefs",
-    props=["C32", "C07", "C28", "C34"],
+    props=["C32", "C07", "C28", "C34", "C09"],
     params={
         "self": "obj:ReferenceResolver",
         "metamodel": "obj:TextXMetaModel",
@@ -230,6 +230,10 @@ from txvc.props import replay_for  # noqa: E402
 
 @replay_for("model.resolve_one_step.body")
 def _replay_body(model, rec):
+    if rec.get("property") == "C07":
+        from .c07 import _replay_plainname
+
+        return _replay_plainname(model, rec)
     from textx import metamodel_from_str
 
     keys = ["Ref.r", "*.r", "Ref.*", "*.*"]
